@@ -403,8 +403,14 @@ def rule_d3(F):
                         src = mir.origin_key(b, defs, t2["args"][0][1]) if t2["args"] and mir.is_place_op(t2["args"][0]) else None
                     pk = {p.get("name"): "arg%d" % (i + 1) for i, p in enumerate(b.hir["params"])}
                     r.inst("tree collects items", {"chain": nm, "source": src})
-                    if src and src.startswith(pk.get("order", "?")) and not any(x in REVERSERS for x in nm):
+                    # every step between `order` and the collected items keeps the sequence as it is (no partition / chain /
+                    # sort / skip ...: filtermaps moved behind the other items are defined after the constants that call them)
+                    keepers = {"iter", "into_iter", "flat_map", "filter_map", "map", "copied", "cloned", "flatten", "by_ref", "collect", "deref", "as_slice", "as_ref", "borrow", "enumerate", "inspect"}
+                    foreign = [x for x in nm if x not in keepers]
+                    if src and src.startswith(pk.get("order", "?")) and not any(x in REVERSERS for x in nm) and not foreign:
                         ok = True
+                    elif foreign:
+                        r.note("tree: the item sequence passes through %s" % foreign)
         if not ok:
             r.bad(b.path, "order", relfile(b.file), b.line, "the lowered items are not produced by a forward iteration over the compilation order")
     # LIR: generated helpers before user functions, user order kept
